@@ -116,10 +116,13 @@ def Index.applyIntersect (ix : Index) (q : QArg) (docids : Option IdSet) : Excep
 its algorithms are modelled there): the ids it yields and whether `Unsortable` is raised after
 them.  Sortable ids by value (descending when reversed; the order among equal values is not
 fixed by the contract – here: by docid), cut to `limit`; `Unsortable` iff some id has no value
-and the limit was not filled.  `limit < 1` → `ValueError` before anything else. -/
+and the limit was not filled.  `limit < 1` → `ValueError` before anything else; an index
+without any value raises `Unsortable` at once (not after iteration) for a non-empty request. -/
 def fieldSort (s : Field.State Int) (ids : IdSet) (reverse : Bool) (limit : Option Int) :
     Except Err (List Int × Bool) :=
   if (match limit with | some l => decide (l < 1) | none => false) then .error .valueError
+  else if ids = [] then .ok ([], false)                      -- `if not docids: return []`
+  else if s.numDocs = 0 then .error .unsortable              -- `if not numdocs: raise Unsortable(docids)`
   else
     let sortable := ids.filter (fun d => (AMap.get s.rev d).isSome)
     let key := fun d => (AMap.get s.rev d).getD 0
